@@ -175,6 +175,13 @@ func c18Run(c *core.Ctx) {
 			}
 		}
 	}
+	// alphabets containing bytes that are not valid UTF-8 (0xff, 0xfe never
+	// combine with anything)
+	for _, L := range []int{2, 3} {
+		for _, rq := range [][]string{{"a"}, {"a\xff"}, {"b", "\xfe"}} {
+			templates = append(templates, ref.CharRecipe{Length: L, AllowChars: "abc\xff\xfe", RequireSets: rq})
+		}
+	}
 	for ti, tr := range templates {
 		if !c.Mine() {
 			continue
@@ -199,6 +206,20 @@ func c18Run(c *core.Ctx) {
 			})
 			c.Count("nodes", st.Nodes)
 			c.Count("edges", st.Edges)
+			// the random source fails at read k (k = 1..6): whatever was drawn
+			// so far is a secret too
+			for k := 1; k <= 6; k++ {
+				t := policyTape(func(b uint32, i int) uint32 { return uint32(i + 1) })
+				t.FaultAt, t.Fault = k, tape.Fault{Deliver: k % 3, Err: errInjected}
+				install(t)
+				out := runGen(sr.Generate)
+				cls := "source fails: " + outcomeClass(out, t)
+				if out.Panic != "" {
+					cls = fmt.Sprintf("source fails at read %d: panic", k)
+					out.Err = out.Panic
+				}
+				s.observe(tname, cls, out, rp, true)
+			}
 			// other entry points write nothing secret either
 			func() {
 				defer func() { recover() }()
@@ -291,6 +312,18 @@ func c18Run(c *core.Ctx) {
 			})
 			c.Count("nodes", st.Nodes)
 			c.Count("edges", st.Edges)
+			for k := 1; k <= 8; k++ {
+				t := policyTape(func(b uint32, i int) uint32 { return uint32(i + 1) })
+				t.FaultAt, t.Fault = k, tape.Fault{Deliver: k % 3, Err: errInjected}
+				install(t)
+				out := runGen(r.Generate)
+				cls := "source fails: " + outcomeClass(out, t)
+				if out.Panic != "" {
+					cls = fmt.Sprintf("source fails at read %d: panic", k)
+					out.Err = out.Panic
+				}
+				s.observe(tname, cls, out, rp, true)
+			}
 			func() {
 				defer func() { recover() }()
 				install(policyTape(func(b uint32, i int) uint32 { return 1 }))
@@ -336,7 +369,7 @@ func init() {
 	Register(&core.Check{
 		ID:    "C18",
 		Level: "model_checking",
-		Rule: "504 character-recipe templates and 200 wordlist templates whose alphabets, words and separators are secret glyphs (two relabellings: жѣψʘ and ξƕȣʭ), each explored as a complete cell (2 candidates deep; retrying separators with <=2 deviations) plus refused recipes, all-attempts-fail tapes, NewWordList with duplicates, Entropy/SuccessProbability/Alphabet; fd 1, fd 2 and the log are captured per execution; oracle: no secret glyph in the captured text or in a returned error, and the captured text is identical for all random streams of an outcome class and for both relabellings; " +
+		Rule: "504 character-recipe templates and 200 wordlist templates whose alphabets, words and separators are secret glyphs (two relabellings: жѣψʘ and ξƕȣʭ), each explored as a complete cell (2 candidates deep; retrying separators with <=2 deviations) plus refused recipes, all-attempts-fail tapes, a source failure at each of the first 6-8 reads, alphabets with bytes that are not valid UTF-8, NewWordList with duplicates, Entropy/SuccessProbability/Alphabet; fd 1, fd 2 and the log are captured per execution; oracle: no secret glyph in the captured text or in a returned error, and the captured text is identical for all random streams of an outcome class and for both relabellings; " +
 			"non-trivial = outcome classes that emitted a diagnostic",
 		Assume: []string{"file-descriptor level capture sees everything the process writes to stdout/stderr, including the log package", "class-based recipes (digits would collide with counts in diagnostics) use the non-interference oracle only"},
 		Run:    c18Run,
